@@ -915,8 +915,25 @@ def subscript(interp, base, idx, st, node):
     if base.kind == "arr" and base.shape is not None and len(base.shape) == 2 and isinstance(base.term, Term) and base.term.op == "T" and len(base.term.args) == 1 and ((idx.kind == "int" and idx.shape in ((), None)) or (idx.kind == "arr" and idx.shape == () and idx.extra == "int")) and hasattr(interp, "vtab"):
         # row k of A^T is column k of A (a scalar position k)
         src_ = interp.vtab.get(base.term.args[0])
+        if src_ is None:
+            src_ = V("arr", base.term.args[0], shape=(base.shape[1], base.shape[0]), orig=base.orig, labels=base.labels, loc=base.loc, extra=base.extra if isinstance(base.extra, str) else None)
         if src_ is not None and src_.kind == "arr" and src_.shape is not None and len(src_.shape) == 2:
             return subscript(interp, src_, interp.mk_tuple([_full_slice(), idx]), st, node)
+    if idx.kind == "tuple" and idx.items is not None and len(idx.items) == 2 and idx.items[1].kind == "list" and idx.items[1].items is not None and len(idx.items[1].items) == 1 and (idx.items[1].items[0].kind == "int" or (idx.items[1].items[0].kind == "arr" and idx.items[1].items[0].shape == ())) and base.kind == "arr" and isinstance(base.term, Term) and base.term.op == "T":
+        e_ = idx.items[1].items[0]
+        idx = interp.mk_tuple([idx.items[0], V("slice1", T("slice1", e_.term), items=[e_], labels=idx.items[1].labels)])
+    if base.kind == "arr" and base.shape is not None and len(base.shape) == 2 and isinstance(base.term, Term) and base.term.op == "T" and len(base.term.args) == 1 and idx.kind == "tuple" and idx.items is not None and len(idx.items) == 2 and idx.items[0].kind == "slice" and all(x.kind == "none" for x in idx.items[0].items) and ((idx.items[1].kind == "int" and idx.items[1].shape in ((), None)) or (idx.items[1].kind == "arr" and idx.items[1].shape == () and idx.items[1].extra == "int") or idx.items[1].kind == "slice1") and hasattr(interp, "vtab"):
+        # column k of A^T is row k of A (a scalar position k; A^T[:, [k]] is that row as a column)
+        src_ = interp.vtab.get(base.term.args[0])
+        if src_ is None:
+            src_ = V("arr", base.term.args[0], shape=(base.shape[1], base.shape[0]), orig=base.orig, labels=base.labels, loc=base.loc, extra=base.extra if isinstance(base.extra, str) else None)
+        if src_ is not None and src_.kind == "arr" and src_.shape is not None and len(src_.shape) == 2:
+            r_ = subscript(interp, src_, idx.items[1], st, node)
+            if idx.items[1].kind == "slice1":
+                from . import api_lib as _L2
+
+                return _L2.transpose(interp, r_, None)
+            return r_
     if base.kind == "arr" and base.shape is not None and len(base.shape) >= 1 and whole_range(idx, base.shape[0]):
         # a[np.arange(len(a))]: every entry, in order (a copy)
         return V("arr", base.term, shape=base.shape, orig=frozenset([FRESH]), labels=labels, loc=fresh_id(), extra=base.extra if isinstance(base.extra, str) else None, dim=base.dim)
